@@ -67,6 +67,8 @@ func fnum(v float64) string { return fmt.Sprintf("%v", v) }
 // covers many flag combinations; shapes grow with `big`.
 func genCase(r *hx.Rand, big bool) *Case {
 	switch r.Intn(30) {
+	case 3:
+		return genRecordless(r)
 	case 0:
 		return genFixed2(r)
 	case 1:
@@ -592,6 +594,45 @@ func corpusCases() []*Case {
 			c.WantUnits = []string{"m05"}
 			return c
 		}(),
+		// big tables (> 256 cells): 300 benchmarks x 6 runs in one column; a 20 x 13 sweep
+		func() *Case {
+			var sb strings.Builder
+			for b := 0; b < 300; b++ {
+				for run := 0; run < 6; run++ {
+					fmt.Fprintf(&sb, "BenchmarkB%03d 1 %d ns/op\n", b, 100+b*3+(run*7)%11)
+				}
+			}
+			c := mk(nil, sb.String())
+			c.tag("bigtable")
+			return c
+		}(),
+		func() *Case {
+			var sb strings.Builder
+			for run := 0; run < 2; run++ {
+				for sz := 0; sz < 20; sz++ {
+					for im := 0; im < 13; im++ {
+						fmt.Fprintf(&sb, "BenchmarkSweep/size=%d/impl=i%02d 1 %d ns/op\n", 1<<uint(sz%10)+sz, im, 50+sz*13+im+run)
+					}
+				}
+			}
+			c := mk([]string{"-row", "/size", "-col", "/impl"}, sb.String())
+			c.tag("bigtable")
+			return c
+		}(),
+		// record-less inputs (empty; configuration only; PASS/ok only) at every position
+		func() *Case {
+			c := mk(nil, rep("BenchmarkA 1 10 ns/op", 3), "", rep("BenchmarkA 1 12 ns/op", 3))
+			return c
+		}(),
+		func() *Case {
+			c := mk(nil, "goos: linux\npkg: p\n", rep("BenchmarkA 1 10 ns/op", 3), rep("BenchmarkA 1 12 ns/op", 3))
+			return c
+		}(),
+		func() *Case {
+			c := mk(nil, rep("BenchmarkA 1 10 ns/op", 3), rep("BenchmarkA 1 12 ns/op", 3), "PASS\nok  \tp/a\t1.234s\n")
+			c.Args = []string{"old=a.txt", "new=b.txt", "skip=c.txt"}
+			return c
+		}(),
 		// exact assumption
 		mk([]string{"-col", "note"}, "Unit text-bytes assume=exact\nnote: before\n\nBenchmarkSize 1 100 text-bytes\nBenchmarkN 1 100 text-bytes\nBenchmarkN 1 101 text-bytes\n\nnote: after\n\nBenchmarkSize 1 105 text-bytes\nBenchmarkN 1 101 text-bytes\n"),
 	}
@@ -707,5 +748,45 @@ func genManyResidues(r *hx.Rand) *Case {
 	}
 	c.Files = []GenFile{{"a.txt", sb.String()}}
 	c.Args = []string{"a.txt"}
+	return c
+}
+
+// genRecordless: 2-4 inputs of which one or two yield NO record (0 bytes; configuration lines
+// only; `PASS` / `ok` lines only), at any position, labelled or not.
+func genRecordless(r *hx.Rand) *Case {
+	c := &Case{}
+	c.tag("recordless")
+	n := 2 + r.Intn(3)
+	names := []string{"a.txt", "b.txt", "c.txt", "d.txt"}
+	empties := map[int]bool{r.Intn(n): true}
+	if n > 2 && r.Chance(1, 3) {
+		empties[r.Intn(n)] = true
+	}
+	for i := 0; i < n; i++ {
+		content := ""
+		if empties[i] {
+			content = hx.Pick(r, []string{"", "goos: linux\ngoarch: amd64\npkg: p/a\n", "PASS\nok  \tp/a\t0.5s\n", "goos: linux\nPASS\n", "\n\n"})
+		} else {
+			var sb strings.Builder
+			if r.Bool() {
+				sb.WriteString("goos: linux\n\n")
+			}
+			for _, b := range []string{"A", "B"} {
+				for k := 0; k < 1+r.Intn(4); k++ {
+					fmt.Fprintf(&sb, "Benchmark%s 1 %d ns/op\n", b, 10+i*3+r.Intn(5))
+				}
+			}
+			content = sb.String()
+		}
+		c.Files = append(c.Files, GenFile{names[i], content})
+		if r.Chance(1, 4) {
+			c.Args = append(c.Args, fmt.Sprintf("L%d=%s", i, names[i]))
+		} else {
+			c.Args = append(c.Args, names[i])
+		}
+	}
+	if r.Chance(1, 3) {
+		c.Flags = hx.Pick(r, [][]string{{"-row", ".name"}, {"-col", ".file@alpha"}, {"-ignore", "goos"}})
+	}
 	return c
 }
